@@ -28,6 +28,7 @@ warnings.simplefilter("ignore")  # strax.processing.general switches UserWarning
 ID = "C17"
 LEAN_MODULES = ["StraxModel.Props.C17"]
 TRUSTED = [
+    "translator (checks/props/c17.py:regen): AST of overlap_indices -> Generated/OverlapIndices.lean (if/raise/return, +, -, unary -, max, min, comparisons, or)",
     "modelled not verified: numpy fancy indexing / np.diff / np.where / np.unique / stable mergesort argsort, numba typed-list plumbing",
     "sweep glue: the driver op `c17.sweep` applies one c17 op to every container configuration listed on the line and joins the answers with ';' (the Python adapter does the same with the real function)",
 ]
@@ -37,6 +38,97 @@ ASSUMPTIONS = [
     "sort_by_time: only the composite-key path is modelled (time span far below 2^63/(channels+1)); the float guard and the np.sort fallback are outside",
     "int64 wrap-around not modelled",
 ]
+
+# ============================================================================================ step 0: translator
+# overlap_indices is a pure scalar decision function: its Lean definition is regenerated from the current Python source
+# and Props/C17.lean proves `Generated.overlapIndices = IntervalAlgos.overlapIndices` (so `overlap_indices_spec` is
+# re-proved against what the code says now, for all integers — its input domain is infinite).
+
+class Untranslatable(Exception):
+    pass
+
+
+def _tr_expr(e):
+    import ast
+    if isinstance(e, ast.Constant) and isinstance(e.value, int) and not isinstance(e.value, bool):
+        return str(e.value) if e.value >= 0 else f"({e.value})"
+    if isinstance(e, ast.Name):
+        return e.id
+    if isinstance(e, ast.UnaryOp) and isinstance(e.op, ast.USub):
+        return f"(-{_tr_expr(e.operand)})"
+    if isinstance(e, ast.BinOp) and isinstance(e.op, (ast.Add, ast.Sub)):
+        return f"({_tr_expr(e.left)} {'+' if isinstance(e.op, ast.Add) else '-'} {_tr_expr(e.right)})"
+    if isinstance(e, ast.Call) and isinstance(e.func, ast.Name) and e.func.id in ("max", "min") and len(e.args) == 2 and not e.keywords:
+        return f"({e.func.id} {_tr_expr(e.args[0])} {_tr_expr(e.args[1])})"
+    if isinstance(e, ast.Tuple):
+        return "(" + ", ".join(_tr_expr(x) for x in e.elts) + ")"
+    raise Untranslatable(ast.dump(e)[:80])
+
+
+def _tr_cond(e):
+    import ast
+    if isinstance(e, ast.BoolOp):
+        op = " ∨ " if isinstance(e.op, ast.Or) else " ∧ "
+        return "(" + op.join(_tr_cond(v) for v in e.values) + ")"
+    if isinstance(e, ast.Compare) and len(e.ops) == 1:
+        sym = {ast.Lt: "<", ast.LtE: "≤", ast.Gt: ">", ast.GtE: "≥", ast.Eq: "="}.get(type(e.ops[0]))
+        if sym:
+            return f"({_tr_expr(e.left)} {sym} {_tr_expr(e.comparators[0])})"
+    raise Untranslatable(ast.dump(e)[:80])
+
+
+def _tr_block(stmts):
+    """statements -> Lean term of type Except Err ((Int × Int) × (Int × Int))"""
+    import ast
+    if not stmts:
+        raise Untranslatable("function may fall off its end")
+    st, rest = stmts[0], stmts[1:]
+    if isinstance(st, ast.Expr) and isinstance(st.value, ast.Constant) and isinstance(st.value.value, str):
+        return _tr_block(rest)  # docstring
+    if isinstance(st, ast.Return) and st.value is not None:
+        return f"pure {_tr_expr(st.value)}"
+    if isinstance(st, ast.Raise) and st.exc is not None:
+        exc = st.exc.func if isinstance(st.exc, ast.Call) else st.exc
+        if isinstance(exc, ast.Name) and exc.id == "ValueError":
+            return "throw Strax.Err.valueError"
+        raise Untranslatable("raise of something else than ValueError")
+    if isinstance(st, ast.Assign) and len(st.targets) == 1 and isinstance(st.targets[0], ast.Name):
+        return f"let {st.targets[0].id} : Int := {_tr_expr(st.value)}\n  {_tr_block(rest)}"
+    if isinstance(st, ast.If):
+        els = _tr_block(st.orelse + rest) if st.orelse else _tr_block(rest)
+        # the translated subset only has `if`s whose body ends in return / raise, so the rest is the else branch
+        if not isinstance(st.body[-1], (ast.Return, ast.Raise)):
+            raise Untranslatable("if-body that falls through")
+        return f"if {_tr_cond(st.test)} then ({_tr_block(st.body)})\n  else\n  {els}"
+    raise Untranslatable(type(st).__name__)
+
+
+def regen(ctx):
+    """Regenerate Generated/OverlapIndices.lean from the current source of strax.processing.general.overlap_indices."""
+    import ast
+    from lib.engine import LEAN, REPO
+    out = LEAN / "StraxModel" / "Generated" / "OverlapIndices.lean"
+    try:
+        tree = ast.parse((REPO / "strax" / "processing" / "general.py").read_text())
+        fn = next(n for n in ast.walk(tree) if isinstance(n, ast.FunctionDef) and n.name == "overlap_indices")
+        args = [a.arg for a in fn.args.args]
+        if len(args) != 4 or fn.args.vararg or fn.args.kwarg or fn.args.kwonlyargs or fn.args.defaults:
+            raise Untranslatable("signature")
+        body = _tr_block(fn.body)
+    except (Untranslatable, StopIteration, SyntaxError) as e:
+        ctx.translator["overlap_indices"] = f"untranslatable: {e}"
+        ctx.violation("translator:overlap_indices", "translator", None, {"reason": str(e)},
+                      "translator regenerates Generated.overlapIndices from the source of overlap_indices", False)
+        return
+    ctx.translator["overlap_indices"] = "translated"
+    text = ("-- GENERATED by checks/props/c17.py:regen from /repo/strax/processing/general.py (overlap_indices). Do not edit.\n"
+            "import StraxModel.Model.Basic\n"
+            "namespace Strax.Generated\n"
+            f"def overlapIndices ({' '.join(args)} : Int) : Except Strax.Err ((Int × Int) × (Int × Int)) :=\n  {body}\n"
+            "end Strax.Generated\n")
+    if not out.exists() or out.read_text() != text:
+        out.write_text(text)
+
 
 # ============================================================================================ helpers
 
@@ -213,10 +305,11 @@ def o_touch_counts(t, c, w, out):
 
 
 def prevnext_pre(t, c):
-    """documented: things sorted and non-overlapping; intervals sorted and non-overlapping. Zero-length rows make
-    'previous' / 'next' ambiguous (an empty interval at the thing's own edge), so the definition is compared for
+    """documented: things sorted and non-overlapping; intervals sorted and non-overlapping. The theorem
+    (prev_next_spec) does not need the things to be non-overlapping, so neither does the oracle. A zero-length interval
+    sitting exactly on a thing's edge makes 'previous' / 'next' ambiguous, so the definition is compared for
     positive-length intervals and non-negative-length things."""
-    return rows_sorted(t) and rows_sorted(c) and non_overlap(t) and non_overlap(c) and non_neg(t) and positive(c)
+    return rows_sorted(t) and rows_sorted(c) and non_overlap(c) and non_neg(t) and positive(c)
 
 
 def o_prevnext(t, c, extra, out):
@@ -292,7 +385,7 @@ ENCS = ("end", "len")
 
 
 def sweep_eval(case):
-    """(answer line, oracle message or None) — runs in a worker process"""
+    """(answer line, oracle message or None, index of the first failing configuration or None) — runs in a worker process"""
     sc = scope(case["cs"])
     fn = case["fn"]
     f, orc = PAIR_FUNCS[fn], PAIR_ORACLES[fn]
@@ -301,7 +394,7 @@ def sweep_eval(case):
     flip = case["flip"]
     w = case.get("w")
     outs = []
-    msg = None
+    msg = bad = None
     for j, crow in enumerate(sc["rows"]):
         c = sc["arr"][ENCS[(j + flip) % 2]][j]
         o = f(t, c, w) if fn in HAS_EXTRA else f(t, c)
@@ -309,8 +402,17 @@ def sweep_eval(case):
         if msg is None:
             m = orc(trows, crow, w, o)
             if m:
-                msg = f"containers {sl.show_rows(crow)}: {m}"
-    return ";".join(outs), msg
+                msg, bad = f"containers {sl.show_rows(crow)}: {m}", j
+    return ";".join(outs), msg, bad
+
+
+def single_of(case, j):
+    """the stand-alone pair case for configuration j of a sweep case (minimal replay)"""
+    c = dict(fn=case["fn"], t=case["t"], c=[list(r) for r in scope(case["cs"])["rows"][j]], et=case["et"],
+             ec=ENCS[(j + case["flip"]) % 2])
+    if "w" in case:
+        c["w"] = case["w"]
+    return c
 
 
 def op_sweep(case):
@@ -332,12 +434,15 @@ PAIRS = {}
 
 
 def warmup():
-    """compile every jitted function for both encodings in this process before the workers are forked"""
+    """compile every jitted function (and the typed-list methods split_by_containment uses on its Python-level paths)
+    for both encodings in this process, before the workers are forked"""
     for et in ENCS:
         for ec in ENCS:
-            t, c = sl.mk_array([(0, 2, 0), (3, 4, 1)], et), sl.mk_array([(0, 5, 0)], ec)
-            for fn, f in PAIR_FUNCS.items():
-                f(t, c, 0) if fn in HAS_EXTRA else f(t, c)
+            for trows in ([(0, 2, 0), (3, 4, 1)], []):
+                for crows in ([(0, 5, 0)], []):
+                    t, c = sl.mk_array(trows, et), sl.mk_array(crows, ec)
+                    for fn, f in PAIR_FUNCS.items():
+                        f(t, c, 0) if fn in HAS_EXTRA else f(t, c)
 
 
 def nproc():
@@ -368,11 +473,19 @@ def run_sweep(ctx, name, cases, rule, pairs_per_case, branch=None, batch=1500):
     cases = list(cases)
     for c in cases:
         scope(c["cs"])  # build before forking so the workers inherit it
+    if os.environ.get("VERIF_C17_DRY"):  # development aid: only count
+        PAIRS[name] = PAIRS.get(name, 0) + len(cases) * pairs_per_case
+        return
     p = pool()
     for i in range(0, len(cases), batch):
         chunk = cases[i:i + batch]
-        res = p.map(sweep_eval, chunk, chunksize=8) if p is not None else [sweep_eval(c) for c in chunk]
+        # map_async + timeout: a dead worker must end in a machinery error (exit 2), not in a hang
+        res = p.map_async(sweep_eval, chunk, chunksize=8).get(timeout=3000) if p is not None else [sweep_eval(c) for c in chunk]
         table = {id(c): r for c, r in zip(chunk, res)}
+        # a failing configuration is also handed over as a stand-alone pair so that the replay file is minimal
+        singles = [single_of(c, r[2]) for c, r in zip(chunk, res) if r[2] is not None][:5]
+        if singles:
+            ctx.correspond(name + "/failing-pair", singles, impl_pair, op_pair, oracle_pair, rule="configurations of the sweep on which the oracle failed, as single cases")
         ctx.correspond(name, chunk, lambda c: table[id(c)][0], op_sweep, lambda c, o: table[id(c)][1],
                        nontrivial=lambda c, o: len(c["t"]) >= 1, rule=rule, exhaustive=True, branch=branch)
     PAIRS[name] = PAIRS.get(name, 0) + len(cases) * pairs_per_case
@@ -606,6 +719,29 @@ def _run(ctx):
     rng = ctx.rng
     T = ctx.thorough
 
+    # ---------------------------------------------------------------- 0. the theorems' hypotheses
+    # The Boolean deciders used as hypotheses in Props/C17.lean must mean what the oracles / generators mean by
+    # "sorted", "non-overlapping", ...: compare them on arbitrary (also malformed) arrays.
+    def hyp_bits(rows):
+        return "".join(str(int(f(rows))) for f in (rows_sorted, ends_sorted, non_neg, positive, non_overlap))
+    cases = []
+    for rows in gen.all_sorted_rows(3, 3, allow_zero=True):
+        cases.append(dict(t=rows, c=rows[::-1]))
+    for _ in range(ctx.pick(3000, 20000)):
+        t = rnd_things(rng, rng.randint(0, 6), 12, zero_p=0.2, ends_sorted_too=rng.random() < 0.5)
+        c = rnd_valid_containers(rng, rng.randint(0, 5), zero_p=0.2)
+        if rng.random() < 0.4:
+            t = malform(rng, t)
+        if rng.random() < 0.4:
+            c = malform(rng, c)
+        cases.append(dict(t=t, c=c))
+    ctx.correspond("hypotheses/deciders", cases, lambda c: f"ok {hyp_bits(c['t'])} {hyp_bits(c['c'])}",
+                   lambda c: f"c17.hyp {sl.show_rows(c['t'])} {sl.show_rows(c['c'])}", None,
+                   nontrivial=lambda c, o: len(c["t"]) >= 2,
+                   rule="sortedByTimeB / sortedByEndB / nonNegB / positiveRowsB / nonOverlapB of the Lean development vs the predicates the Python oracles use, "
+                        "on small exhaustive arrays (and their reversals) and random valid / malformed arrays",
+                   branch=lambda c, o: o[3:8])
+
     tick(ctx, "before section 1")
     # ---------------------------------------------------------------- 1. fully_contained_in
     # exhaustive: every sorted positive-length things array x every sorted non-overlapping containers array
@@ -618,11 +754,12 @@ def _run(ctx):
                        "against all container configurations; endtime encodings end/len alternate over things and containers",
                   branch=lambda c, o: f"things={len(c['t'])}")
     # zero-length things and containers, all four encoding combinations
-    zt, zg, zc = (3, 4, "nonov:zero:3:4") if not T else (3, 5, "nonov:zero:3:5")
-    run_sweep(ctx, "fcin/zero-length", things_cases("fcin", sorted_things(zt, zg, zero=True), zc, all_enc=T),
-              pairs_per_case=len(scope(zc)["rows"]),
-              rule=f"every time-sorted array of <= {zt} things incl. zero-length on grid 0..{zg} x scope '{zc}' incl. zero-length containers" + (", all 4 encoding combinations" if T else ""),
-              branch=lambda c, o: f"things={len(c['t'])}")
+    for zt, zg, zc, allenc in ([(3, 4, "nonov:zero:3:4", False)] if not T else [(3, 4, "nonov:zero:3:4", True), (3, 5, "nonov:zero:3:5", False)]):
+        run_sweep(ctx, "fcin/zero-length", things_cases("fcin", sorted_things(zt, zg, zero=True), zc, all_enc=allenc),
+                  pairs_per_case=len(scope(zc)["rows"]),
+                  rule="every time-sorted array of <= 3 things incl. zero-length on grid 0..4 (thorough: all 4 encoding combinations, and grid 0..5) x every "
+                       "sorted non-overlapping containers array (<= 3, zero-length allowed) on the same grid",
+                  branch=lambda c, o: f"things={len(c['t'])}")
     # the jitted core without the sanity wrapper, arbitrary (also overlapping / unsorted) containers: model agreement
     cc, cg = (2, 4) if not T else (3, 4)
     run_sweep(ctx, "fcin/core-any-containers", things_cases("fcincore", sorted_things(3, 4, zero=True), f"sorted:zero:{cc}:{cg}"),
@@ -651,10 +788,11 @@ def _run(ctx):
 
     tick(ctx, "before section 2")
     # ---------------------------------------------------------------- 2. split_by_containment
-    scopes = [(3, 5, "nonov:pos:3:5")] if not T else [(4, 6, "nonov:pos:3:6")]
+    scopes = [(3, 5, "nonov:pos:3:5")] if not T else [(4, 5, "nonov:pos:3:5"), (3, 6, "nonov:pos:3:6")]
     for tn, tg, cs in scopes:
         run_sweep(ctx, "split/exhaustive", things_cases("split", sorted_things(tn, tg), cs), pairs_per_case=len(scope(cs)["rows"]),
-                  rule=f"every time-sorted array of <= {tn} positive-length things on grid 0..{tg} x scope '{cs}'",
+                  rule="every time-sorted array of <= n positive-length things on grid 0..g x every sorted non-overlapping containers array (scope kind:zero?:max:grid); "
+                       "(n, g, scope): " + ", ".join(f"({a},{b},{c})" for a, b, c in scopes),
                   branch=lambda c, o: f"things={len(c['t'])}")
     zt, zg, zc = (2, 4, "nonov:zero:3:4") if not T else (3, 4, "nonov:zero:3:4")
     run_sweep(ctx, "split/zero-length", things_cases("split", sorted_things(zt, zg, zero=True), zc), pairs_per_case=len(scope(zc)["rows"]),
@@ -699,9 +837,9 @@ def _run(ctx):
     # ---------------------------------------------------------------- 4. touching_windows
     windows = range(-2, 4)
     if not T:
-        tscopes = [(3, 5, "sorted:pos:2:5"), (4, 4, "sorted:pos:2:4"), (2, 4, "sorted:pos:3:4")]
+        tscopes = [(3, 5, "sorted:pos:2:5"), (4, 4, "sorted:pos:1:4"), (2, 4, "sorted:pos:3:4")]
     else:
-        tscopes = [(3, 7, "sorted:pos:2:7"), (4, 6, "sorted:pos:2:6"), (4, 5, "sorted:pos:3:5"), (2, 7, "sorted:pos:3:7")]
+        tscopes = [(4, 7, "sorted:pos:1:7"), (3, 7, "sorted:pos:2:7"), (2, 6, "sorted:pos:3:6"), (4, 5, "sorted:pos:2:5"), (4, 4, "sorted:pos:3:4")]
     for tn, tg, cs in tscopes:
         things = sorted_things(tn, tg, ends=True)
         for w in windows:
@@ -709,7 +847,7 @@ def _run(ctx):
                       rule="every array of <= n positive-length things sorted by time and endtime x every time-sorted (overlapping allowed) containers array x window -2..3; "
                            "scopes (things n, grid, containers scope): " + ", ".join(f"({a},{b},{c})" for a, b, c in tscopes),
                       branch=lambda c, o: f"w={c['w']}")
-    zt, zg, zc = (2, 4, "sorted:zero:2:4") if not T else (3, 4, "sorted:zero:3:4")
+    zt, zg, zc = (2, 4, "sorted:zero:2:4") if not T else (3, 4, "sorted:zero:2:4")
     for w in windows:
         run_sweep(ctx, "touching_windows/zero-length+unsorted-ends", things_cases("touch", sorted_things(zt, zg, zero=True), zc, w=w),
                   pairs_per_case=len(scope(zc)["rows"]),
@@ -764,10 +902,12 @@ def _run(ctx):
 
     tick(ctx, "before section 6")
     # ---------------------------------------------------------------- 6. abs_time_to_prev_next_interval
-    pn, pg, pc = (3, 5, "nonov:pos:3:5") if not T else (4, 6, "nonov:pos:3:6")
-    run_sweep(ctx, "prev_next/exhaustive", things_cases("prevnext", sorted_things(pn, pg, nonov=True, zero=True), pc),
-              pairs_per_case=len(scope(pc)["rows"]),
-              rule=f"every sorted non-overlapping array of <= {pn} things (zero-length allowed) on grid 0..{pg} x scope '{pc}' of positive non-overlapping intervals")
+    pscopes = [(3, 5, "nonov:pos:3:5")] if not T else [(4, 5, "nonov:pos:3:5"), (3, 6, "nonov:pos:3:6")]
+    for pn, pg, pc in pscopes:
+        run_sweep(ctx, "prev_next/exhaustive", things_cases("prevnext", sorted_things(pn, pg, zero=True), pc),
+                  pairs_per_case=len(scope(pc)["rows"]),
+                  rule="every time-sorted array of <= n things (overlapping and zero-length allowed) on grid 0..g x every sorted non-overlapping array of <= 3 "
+                       "positive-length intervals; (n, g, scope): " + ", ".join(f"({a},{b},{c})" for a, b, c in pscopes))
     zt, zg, zc = (2, 4, "sorted:zero:2:4") if not T else (3, 4, "sorted:zero:3:4")
     run_sweep(ctx, "prev_next/any-sorted", things_cases("prevnext", sorted_things(zt, zg, zero=True), zc), pairs_per_case=len(scope(zc)["rows"]),
               rule=f"every time-sorted array of <= {zt} things x every time-sorted intervals array (overlapping and zero-length allowed, scope '{zc}'): model agreement; "
@@ -838,6 +978,8 @@ def replay(ctx, body):
     if body.get("case") is None:
         return f"obligation {comp} has no input to replay (no-failing-input-found); re-run the check"
     case = body["case"]["case"]
+    if comp.startswith("hypotheses"):
+        return "this component only compares the Lean hypothesis deciders with the Python predicates; re-run the check"
     table = [("overlap_indices", impl_overlap, oracle_overlap), ("diff", impl_diff, oracle_diff),
              ("find_break", impl_findbreak, oracle_findbreak), ("search/find_break", impl_findbreak, oracle_findbreak),
              ("from_break", impl_frombreak, oracle_frombreak), ("sort_by_time", impl_sort, oracle_sort),
@@ -848,7 +990,7 @@ def replay(ctx, body):
             print("implementation output:", out)
             return oracle(case, out)
     if "cs" in case:
-        out, msg = sweep_eval(case)
+        out, msg, _ = sweep_eval(case)
         print("implementation output (sweep):", out[:300])
         return msg
     out = impl_pair(case)
